@@ -130,6 +130,21 @@ Theorem C16_ptr_refines_functional_insert :
 Proof. exact ptr_insert_C16. Qed.
 Print Assumptions C16_ptr_refines_functional_insert.
 
+(* Double registration: iv_avl_tree_insert called with the node object that is
+   ALREADY linked in the tree (a = f k, the node holding key k; leaf, interior
+   node or root).  It returns -1 without a single store: the whole state --
+   including left/right/parent/height of that very node -- is unchanged.  (The
+   present-key half of the theorem above already covers every argument node a
+   with that key, linked or not; this is the linked case spelled out.) *)
+Theorem C16_ptr_reinsert_linked_node :
+  forall f s root t k fuel,
+    RepF f s root t -> C16_Inv t -> In k (inorder t) -> (depth t <= fuel)%nat ->
+    exists n, PM.find (f k) s = Some n /\ n_key n = k
+      /\ AvlModel.insert k t = None
+      /\ iv_avl_tree_insert fuel (mkState s root) (Some (f k)) = Ok (mkState s root, -1).
+Proof. exact ptr_reinsert_linked_C16. Qed.
+Print Assumptions C16_ptr_reinsert_linked_node.
+
 (* iv_avl_tree_delete of the node carrying key k (leaf, or victim swap from the
    taller side followed by rebalance_path): same guarantees; the deleted
    object is no longer a node of the tree. *)
@@ -192,25 +207,41 @@ Theorem C16_ptr_history :
 Proof. exact ptr_history. Qed.
 Print Assumptions C16_ptr_history.
 
+(* The same for histories that also contain PReins k = insert of the node that
+   is already linked under key k (for the functional model: Ins k, a rejected
+   duplicate). *)
+Theorem C16_ptr_history_reinsert :
+  forall pops fuel g gh, (length pops < fuel)%nat ->
+    exists m f,
+      prun fuel g gh pops empty_machine = Ok m
+      /\ RepF f (st_store (m_state m)) (st_root (m_state m)) (run (map pop_op pops) E)
+      /\ C16_Inv (run (map pop_op pops) E).
+Proof. exact ptr_history_pops. Qed.
+Print Assumptions C16_ptr_history_reinsert.
+
 (* Non-vacuity at the pointer level: a history with both double rotations
    (i20: right-left, i7 and i9: left-right), both single rotations, a duplicate,
    a leaf delete, a delete of the root whose victim is the minimum of the right
    subtree two levels down (d7), a delete whose victim is the maximum of the
-   left subtree (d8) and an absent key.  After every operation the store
+   left subtree (d8), an absent key, and re-inserts of the already linked root
+   (PReins 7), of a linked leaf and interior node, and PReins of an absent key.  After every operation the store
    satisfies RepF of the functional model's tree, the return codes agree and
    iv_avl_tree_for_each enumerates the nodes in order. *)
 Example C16_ptr_nonvacuous :
-  let ops := [Ins 10; Ins 30; Ins 20; Ins 5; Ins 7; Ins 40; Ins 50; Ins 3; Ins 1; Ins 8; Ins 9;
-              Ins 6; Ins 20; Del 10; Del 7; Del 50; Del 40; Del 8; Del 99] in
-  check_hist 8 ops empty_machine E = true
-  /\ (exists m, prun 8 (Some 1%positive) 170 (map to_pop ops) empty_machine = Ok m
-        /\ RepF (fof (st_store (m_state m))) (st_store (m_state m)) (st_root (m_state m)) (run ops E)
-        /\ inorder (run ops E) = [1; 3; 5; 6; 9; 20; 30]).
+  let pops := [PIns 10; PIns 30; PIns 20; PIns 5; PIns 7; PIns 40; PIns 50; PIns 3; PIns 1; PIns 8; PIns 9;
+               PIns 6; PIns 20; PReins 7; PReins 6; PReins 20; PReins 99; PDel 99; PDel 10; PDel 7;
+               PDel 50; PDel 40; PDel 8; PDel 99] in
+  check_hist 8 pops empty_machine E = true
+  /\ (exists m, prun 8 (Some 1%positive) 170 pops empty_machine = Ok m
+        /\ RepF (fof (st_store (m_state m))) (st_store (m_state m)) (st_root (m_state m))
+             (run (map pop_op pops) E)
+        /\ inorder (run (map pop_op pops) E) = [1; 3; 5; 6; 9; 20; 30]).
 Proof.
   cbv zeta. split; [vm_compute; reflexivity|].
   destruct (hist_ok_spec 8
-    [Ins 10; Ins 30; Ins 20; Ins 5; Ins 7; Ins 40; Ins 50; Ins 3; Ins 1; Ins 8; Ins 9;
-     Ins 6; Ins 20; Del 10; Del 7; Del 50; Del 40; Del 8; Del 99]) as (m & A & B);
+    [PIns 10; PIns 30; PIns 20; PIns 5; PIns 7; PIns 40; PIns 50; PIns 3; PIns 1; PIns 8; PIns 9;
+     PIns 6; PIns 20; PReins 7; PReins 6; PReins 20; PReins 99; PDel 99; PDel 10; PDel 7;
+     PDel 50; PDel 40; PDel 8; PDel 99]) as (m & A & B);
     [vm_compute; reflexivity|].
   exists m. split; [exact A|]. split; [exact B|]. vm_compute. reflexivity.
 Qed.
